@@ -377,6 +377,7 @@ class ElectionProfile:
         #  a multiplier of 0 ends the ballot list
         #
         ballotIDs = set()
+        nBallotsRead = 0    # ballots read, including those dropped later (empty, all withdrawn)
 
         while True:
             if tok.startswith('('):     # handle ballot ID
@@ -395,6 +396,7 @@ class ElectionProfile:
                     (tok, self.lineNumber))
             if not multiplier:  # test end of ballot lines (multiplier of 0)
                 break
+            nBallotsRead += 1
 
             ranking = list()    # [CID]
             while True:
@@ -413,9 +415,9 @@ class ElectionProfile:
 
             tok = next(blt)  # next multiplier or 0 for end of ballots
 
-        if ballotIDs and len(ballotIDs) != len(self.ballotLines):
+        if ballotIDs and len(ballotIDs) != nBallotsRead:
             raise ElectionProfileError('number of ballot IDs (%d) does not match number of ballots (%d)' % \
-                (len(ballotIDs), len(self.ballotLines)))
+                (len(ballotIDs), nBallotsRead))
 
         #  candidate names
         #
